@@ -25,7 +25,7 @@ RULE = ("argv = control <host> [--capabilities] [--id N --token T --key K] + 1..
         "(property-protocol settings in the device's property store), exactly one display toggle iff display_on differs, "
         "unspecified settings as the device reported them. Invalid catalogue (unknown names, read-only properties, methods, "
         "non-member enum names/integers, non-numeric numbers, yes/on/maybe booleans, missing '=', empty value, mixed with valid "
-        "pairs in any position): exit status != 0 (an uncaught exception counts as 1) and no connection attempt and no datagram. "
+        "pairs in any position, with and without --id/--token/--key and --capabilities): exit status != 0 (an uncaught exception counts as 1) and no connection attempt and no datagram. "
         "All (setting, member, case-style) triples exhaustively. Non-trivial: >= 2 pairs, or an enum by mixed-case name, or a raw "
         "fan integer, or display_on. Distinct by argv + initial state.")
 ASSUMPTIONS = ["ambiguous inputs (beep=2, power_state=None, operational_mode=2.0) are in neither the valid table nor the invalid catalogue",
@@ -300,12 +300,13 @@ def run(ctx) -> None:
             n += 1
             if ctx.mine(n):
                 settings = [bad] if pos == 0 else ["eco=True", bad]
-                case = {"kind": "invalid", "settings": settings, "initial": DEFAULT_INITIAL, "capabilities": False, "version": 2}
+                case = {"kind": "invalid", "settings": settings, "initial": DEFAULT_INITIAL, "capabilities": n % 3 == 0, "version": 2 + (n % 2)}
                 ctx.check(case, lambda c: _run_one(ctx, c))
     ctx.sweep("every (setting, member, case style), member integer, boolean spelling, raw fan integer, setpoint; invalid catalogue", n, True)
 
     valid = st.builds(_mk_valid, st.lists(pair_strategy(), min_size=1, max_size=3), gens.device_states(), st.booleans(), st.sampled_from([2, 2, 3]))
     ctx.hyp("valid argv", valid, lambda c: _run_one(ctx, c), ctx.n(3200, 128000))
     invalid = st.tuples(st.lists(pair_strategy().map(lambda t: t[1]), max_size=2), st.sampled_from(INVALID), st.integers(0, 2)).map(
-        lambda t: {"kind": "invalid", "settings": (t[0][:t[2]] + [t[1]] + t[0][t[2]:]), "initial": DEFAULT_INITIAL, "capabilities": False, "version": 2})
+        lambda t: {"kind": "invalid", "settings": (t[0][:t[2]] + [t[1]] + t[0][t[2]:]), "initial": DEFAULT_INITIAL, "capabilities": t[2] == 1,
+                   "version": 2 + (len(t[1]) % 2)})
     ctx.hyp("invalid argv", invalid, lambda c: _run_one(ctx, c), ctx.n(1200, 48000))
